@@ -3,6 +3,7 @@ import RpmVerif.Driver.C01
 import RpmVerif.Driver.C16
 import RpmVerif.Driver.C20
 import RpmVerif.Driver.C18
+import RpmVerif.Driver.C15
 /-! Driver: one request per line in (`<op> <args…> => <impl observation>`), one answer per line
 out (`<model observation> | <spec verdict> | <branch label>`).
 Each property contributes `Driver/Cxx.lean` with `ops : List String` and
@@ -14,7 +15,8 @@ def handlers : List (List String × (String → List String → String → Strin
   (C01.ops, C01.handle),
   (C16.ops, C16.handle),
   (C20.ops, C20.handle),
-  (C18.ops, C18.handle)
+  (C18.ops, C18.handle),
+  (C15.ops, C15.handle)
 ]
 
 def dispatch (line : String) : String :=
